@@ -387,6 +387,9 @@ def run(model, tier="quick"):
     effects_check(res, model, "UniLpMarket.add_liquidity_by_tick", _U.REF_ADD_BY_TICK_PUBLIC,
                   "add by tick: offered amounts as given, explicit price / tick honoured", _FX + ["_add_liquidity_by_tick"],
                   opaque=_OPQ + ["tick_to_sqrt_price_x96", "tick_to_price"], aliases=UNI_ALIASES)
+    # constructors establish the relations between fields that the references above take for granted
+    from .ctor_refs import constructors
+    res.units["constructor_references"] = constructors(res, model, ('pool',))
     from ..rules.fresh import fresh_rule
     if "R-FRESH" not in res.rules:
         res.rules.append("R-FRESH")
